@@ -326,7 +326,7 @@ def _check_signal_lifecycles(check, an: Analysis, wrapper, rule: str = 'P', only
         owner = an.p.enclosing_self_class(fn)
         callee = Callee(fn, owner.qn if owner else None)
         paths = an.paths(callee)
-        if cls == CANCEL_TASK and fn.cls is not None and fn.cls.qn == _scope.TASK:
+        if cls == CANCEL_TASK and rules.owned_by(an, fn, _scope.TASK):
             # registered in _cancellations before it is scheduled; revoked by the wrapper
             ok_reg = True
             for path in paths:
